@@ -285,7 +285,9 @@ func (dsm *DsManager) DeleteDataset(name string) error {
 	// back, with all its data. Such a write holds core.Dataset's write lock, so take that too (after the
 	// dataset's own lock: the order every writer uses) and keep it until the meta-entity is deleted as well
 	core := dsm.GetDataset(datasetCore)
+	verifhook.Acquire(dsm.store.database, "dataset.write", core)
 	core.WriteLock.Lock()
+	defer verifhook.Release(dsm.store.database, "dataset.write", core)
 	defer core.WriteLock.Unlock()
 
 	// record we deleted it.
